@@ -3,8 +3,26 @@ from . import common
 from harness import corpus
 PROP = "C03"
 MONITORS = ("M-carry", "M-drain")
+# the drain clause after a recovery (orphaned replies and the re-armed timers of redelivered Task events exist only then): C04's crash
+# points between two atomic steps (plain / head messages in flight / slow start-up) of its single-level scenarios - a crash *inside* a
+# step legitimately duplicates an event (at-least-once delivery), and what the nested fan-outs lose is C04's known finding
+CRASH_SCENARIOS = ("crash-pass-task-pass", "crash-wait", "crash-task-retry", "crash-parallel-tasks", "crash-map-maxconc", "crash-task-catch", "crash-stale-reply",
+                   "crash-parallel-wait-end", "crash-parallel-pass-end", "crash-map-wait-items", "crash-sync-child-named", "crash-sync-child-unnamed")
+CRASH_VARIANTS = ("between", "inflight", "slowboot")
 def scenarios(tier):
     return (corpus.handler_coverage_corpus() + corpus.poison_corpus() + corpus.seq_family(tier) + corpus.fanout_ok_family(tier)
             + corpus.fanout_fail_family(tier) + corpus.bystander_family(tier))
 def run(tier, seed):
-    return common.engine_check(PROP, scenarios(tier), MONITORS, tier, seed)
+    cr = common.engine_check(PROP, scenarios(tier), MONITORS, tier, seed)
+    from . import c04
+    jobs, by_name, npoints, scs = c04.build_jobs(tier, MONITORS, names=CRASH_SCENARIOS, variants=CRASH_VARIANTS)
+    outs = common.explore_many("checks.monsets", "crash", jobs, seed)
+    tot, samples = common.collect(cr, outs, by_name, lambda v: v["monitor"] in MONITORS, "crash")
+    cov = cr.coverage
+    cov["states"] += tot["states"]; cov["transitions"] += tot["transitions"]; cov["traces_validated_against_impl"] += tot["paths"]
+    cov["quiescent_states_reached"] += tot["executions"]
+    cov["capped"] = cov["capped"] + tot["capped"]
+    cov["exhaustive"] = cov["exhaustive"] and not tot["capped"] and tot["bounded"] == 0
+    cov["after_recovery"] = {"scenarios": len(scs), "explorations": len(jobs), "states": tot["states"], "transitions": tot["transitions"],
+                             "crash_point_kinds": list(CRASH_VARIANTS), "closed_explorations": tot["closed"], "bounded_explorations": tot["bounded"]}
+    return cr
